@@ -201,6 +201,16 @@ def scenarios(ctx, nsim, variants):
         sel = [r for r in rows if r['c'] == c]
         if sel:
             scen.append({'c': c, 'words': [r['b'] for r in sel], 'want': [r['want'] for r in sel]})
+    # history pairs (64-bit use, 32-bit use of one inline constant); quick: a third of them, rotating with the seed
+    pairs = []
+    for i, line in enumerate(open(os.path.join(res.dir, 'hist.ndjson'))):
+        r = json.loads(line)
+        if r['k'] != 'pair':
+            raise vlib.Infra('DecodeScen produced an undecodable history word: %s' % line[:200])
+        if variants >= 8 or (i + ctx.seed) % 3 == 0:
+            pairs.append({'a': r['a'], 'b': r['b'], 'wa': r['wa'], 'wb': r['wb']})
+    scen.insert(0, {'c': 0, 'pairs': pairs})     # first: the decoders have no history yet
+    ctx.cov['history_pairs'] = len(pairs)
     progs = 0
     for b in behs:
         last = b[-1]
@@ -419,7 +429,7 @@ def run(ctx, selftest=False):
     t1 = os.path.join(ctx.scratch, 'trace_scen.ndjson')
     st = run_driver(ctx, drv, ['-scen', sfile, '-out', t1, '-seed', ctx.seed])
     ctx.log('spec-encoded: %d row words (all %d table rows) + %d programs: %s' % (nrows, len(covered), nprogs, st))
-    ctx.sample({'spec_encoded_row': {'bytes': scen[0]['words'][0], 'description': scen[0]['want'][0]['nm']}})
+    ctx.sample({'spec_encoded_row': {'bytes': scen[1]['words'][0], 'description': scen[1]['want'][0]['nm']}})
     validate(ctx, t1, {'cmd': 'c04', 'scenarios': 'regenerate with the same seed/tier'}, stats)
 
     # 3. code -> spec: shipped kernels, seeded random / directed / mutated / truncated words
